@@ -428,3 +428,39 @@ func VerifC15_PopDuringTeardown() {
 	verifapi.Assert(got != a, "a peer whose teardown is in progress is never handed to the data path")
 	verifapi.Assert(got == b, "the healthy spare is handed over instead")
 }
+
+// ---- connectLoop keeps retrying -------------------------------------------------------------
+//
+// "A failed rendezvous ... is reported and retried later": every failed attempt is followed by
+// another one once the reconnect timer has fired, for as long as the connection is open. Here
+// the connection is closed by the third attempt itself.
+
+type verifRetryCollector struct {
+	melt     chan struct{}
+	collects int
+}
+
+func (c *verifRetryCollector) Collect() (*WebRTCPeer, error) {
+	c.collects++
+	// fairness: once the connection is closed the loop cannot prefer its (10 s) timer for ever
+	verifapi.Assume(c.collects <= 5)
+	if c.collects == 3 {
+		close(c.melt) // the connection is closed while the third attempt is under way
+	}
+	return nil, verifErr15
+}
+func (c *verifRetryCollector) Pop() *WebRTCPeer        { return nil }
+func (c *verifRetryCollector) Melted() <-chan struct{} { return c.melt }
+
+func VerifC15_ConnectLoopRetries() {
+	c := &verifRetryCollector{melt: make(chan struct{})}
+	done := false
+	go func() {
+		connectLoop(c)
+		done = true
+	}()
+	verifapi.Quiesce() // every timer that was started has fired, nothing can move any more
+	verifapi.Cover("connectLoop retried")
+	verifapi.Assert(c.collects >= 3, "after a failed attempt the connect loop tries again once the reconnect timer has fired - every time, not just the first")
+	verifapi.Assert(done, "the connect loop stops after the connection is closed")
+}
